@@ -550,3 +550,334 @@ Proof.
   destruct (oneshot_parked_run w mid _ Hp Hn) as [H|H]; [|exact H].
   rewrite (oneshot_parked_not_ready _ _ w' H) in Hr. discriminate.
 Qed.
+
+(* ------------------------------------------------ the trace monitor accepts every history
+   (simulation between each model and the abstract channel of the monitor) *)
+
+Lemma unpark_self w : unpark (Some w) [w] = None.
+Proof. unfold unpark. cbn. rewrite Nat.eqb_refl. reflexivity. Qed.
+Lemma unpark_nil p : unpark p [] = p.
+Proof. destruct p; reflexivity. Qed.
+
+Lemma all_dropped_app_live hs : all_dropped (hs ++ [HLive]) = false.
+Proof. unfold all_dropped. rewrite forallb_app. cbn. apply andb_false_r. Qed.
+
+Definition mrel (s : mpsc) (sp : spec) : Prop :=
+  sp_queue sp = mi_data (m_in s) /\ sp_senders sp = m_senders s /\ sp_recv sp = m_recv s /\
+  mi_closed (m_in s) = false /\
+  (forall w, sp_parked sp = Some w -> mi_waker (m_in s) = Some w /\ mi_data (m_in s) = []).
+
+Ltac spec_unfold :=
+  unfold spec_step, enabled, no_sleeper, spec_ready, disc_counts, enq;
+  cbn [sp_queue sp_senders sp_recv sp_parked o_ret o_woke fst snd skip].
+
+Lemma mpsc_sim_step strict s sp o :
+  mrel s sp -> (strict = true -> mpsc_defect_event s o = false) ->
+  exists sp', spec_step KMpsc strict sp (o, snd (mpsc_step s o)) = Some sp'
+              /\ mrel (fst (mpsc_step s o)) sp'.
+Proof.
+  destruct sp as [q ss r p]. unfold mrel. cbn [sp_queue sp_senders sp_recv sp_parked].
+  intros (Hq & Hss & Hr & Hc & Hp) Hd. revert Hq Hss Hr Hc Hp Hd.
+  unfold mpsc_defect_event.
+  mpsc_cases s o; intros -> -> -> -> Hp Hd; spec_unfold.
+  - destruct (hget hs h); cbn [is_live negb fst snd skip o_ret o_woke];
+      try (eexists; split; [reflexivity|]; cbn; auto; fail).
+    destruct p as [w|].
+    + destruct (Hp w eq_refl) as [-> ->]. cbn [wake]. rewrite unpark_self. cbn.
+      eexists; split; [reflexivity|]. cbn. repeat split; auto. discriminate.
+    + cbn. destruct (d ++ [v]) eqn:E; (eexists; split; [reflexivity|]; cbn; repeat split; auto; discriminate).
+  - destruct (hget hs h); cbn [is_live negb fst snd skip o_ret o_woke];
+      try (eexists; split; [reflexivity|]; cbn; auto; fail).
+    rewrite unpark_nil. cbn [ret_eqb]. destruct p as [w|].
+    + destruct (Hp w eq_refl) as [-> ->]. rewrite all_dropped_app_live, andb_false_r, andb_false_r.
+      eexists; split; [reflexivity|]. cbn. repeat split; auto; congruence.
+    + eexists; split; [reflexivity|]. cbn. repeat split; auto; discriminate.
+  - destruct (undropped (hget hs h)) eqn:Hu; cbn [is_live negb fst snd skip o_ret o_woke];
+      try (eexists; split; [reflexivity|]; cbn; auto; fail).
+    rewrite unpark_nil. cbn [ret_eqb]. destruct p as [w|].
+    + destruct (Hp w eq_refl) as [-> ->]. cbn [is_nil is_some] in Hd.
+      rewrite !andb_true_r in Hd.
+      destruct strict; cbn [andb].
+      * rewrite (Hd eq_refl).
+        eexists; split; [reflexivity|]; cbn; repeat split; auto; congruence.
+      * rewrite andb_false_r. eexists; split; [reflexivity|]; cbn; repeat split; auto; congruence.
+    + eexists; split; [reflexivity|]. cbn. repeat split; auto; discriminate.
+  - destruct rc; cbn [negb fst snd skip o_ret o_woke];
+      try (eexists; split; [reflexivity|]; cbn; auto; fail).
+    destruct d as [|x t]; cbn [fst snd o_ret o_woke].
+    + cbn [is_nil] in Hd. rewrite andb_true_r in Hd. cbn [andb] in Hd.
+      destruct (all_dropped hs).
+      * destruct strict; [specialize (Hd eq_refl); discriminate|].
+        eexists; split; [reflexivity|]; cbn; repeat split; auto; congruence.
+      * cbn [ret_eqb]. eexists; split; [reflexivity|]; cbn; repeat split; auto; congruence.
+    + cbn [ret_eqb]. rewrite Z.eqb_refl.
+      eexists; split; [reflexivity|]; cbn; repeat split; auto; discriminate.
+  - destruct rc; cbn [negb fst snd skip o_ret o_woke ret_eqb];
+      (eexists; split; [reflexivity|]; cbn; repeat split; intros; auto; try congruence; eapply Hp; eauto).
+Qed.
+
+
+Lemma mpsc_sim_run strict : forall ops s sp,
+  mrel s sp -> (strict = true -> mpsc_known_from s ops = false) ->
+  exists sp', spec_run KMpsc strict sp (trace mpsc_step s ops) = Some sp'.
+Proof.
+  induction ops as [|o t IH]; intros s sp Hrel Hk; cbn [trace spec_run]; [eauto|].
+  destruct (mpsc_sim_step strict s sp o Hrel) as (sp1 & -> & Hrel1).
+  - intros Hs. specialize (Hk Hs). cbn [mpsc_known_from] in Hk. apply orb_false_iff in Hk. apply Hk.
+  - apply IH; [exact Hrel1|]. intros Hs. specialize (Hk Hs). cbn [mpsc_known_from] in Hk.
+    apply orb_false_iff in Hk. apply Hk.
+Qed.
+
+Lemma mrel_init : mrel mpsc_init spec_init.
+Proof. unfold mrel. cbn. repeat split; intros; auto; discriminate. Qed.
+
+Lemma mpsc_oracle_relaxed ops : oracle KMpsc false (mtrace ops) = true.
+Proof.
+  unfold oracle, mtrace.
+  destruct (mpsc_sim_run false ops _ _ mrel_init) as (sp' & ->); [discriminate|reflexivity].
+Qed.
+
+Lemma mpsc_oracle_strict_unless_known ops :
+  mpsc_known_class ops = false -> oracle KMpsc true (mtrace ops) = true.
+Proof.
+  intros Hk. unfold oracle, mtrace.
+  destruct (mpsc_sim_run true ops _ _ mrel_init) as (sp' & ->); [intros _; exact Hk|reflexivity].
+Qed.
+
+Lemma mpsc_disconnect_refuted :
+  exists ops, mpsc_known_class ops = true /\ oracle KMpsc true (mtrace ops) = false /\
+    all_dropped (m_senders (mrun ops)) = true /\ m_recv (mrun ops) = true /\
+    sent_vals (mtrace ops) = [] /\
+    o_ret (snd (mpsc_step (mrun ops) (Poll 0%nat))) = RPending.
+Proof. exists [DropS 0%nat; Poll 0%nat]. vm_compute. repeat split; reflexivity. Qed.
+
+(* ----------------------------------------------------------- notification *)
+Definition nrel (s : notif) (sp : spec) : Prop :=
+  sp_queue sp = (if ni_notified (n_in s) then [0] else []) /\
+  sp_senders sp = n_senders s /\ sp_recv sp = n_recv s /\
+  ni_count (n_in s) = live_count (n_senders s) /\
+  (forall w, sp_parked sp = Some w ->
+     ni_waker (n_in s) = Some w /\ ni_notified (n_in s) = false /\ 0 < ni_count (n_in s)).
+
+Ltac simfin Hp :=
+  eexists; split; [reflexivity|]; cbn; repeat split; intros; auto; try congruence; try lia;
+  try (eapply Hp; eauto).
+
+Lemma notif_sim_step strict s sp o :
+  nrel s sp -> ni_count (n_in s) < u64_max ->
+  exists sp', spec_step KNotif strict sp (o, snd (notif_step s o)) = Some sp'
+              /\ nrel (fst (notif_step s o)) sp'.
+Proof.
+  destruct sp as [q ss r p]. unfold nrel. cbn [sp_queue sp_senders sp_recv sp_parked].
+  intros (Hq & Hss & Hr & Hc & Hp) Hb. revert Hq Hss Hr Hc Hp Hb.
+  notif_cases s o; intros -> -> -> Hc Hp Hb; spec_unfold.
+  - destruct (hget hs h); cbn [is_live negb fst snd skip o_ret o_woke];
+      try (eexists; split; [reflexivity|]; cbn; auto; fail).
+    cbn [ret_eqb]. destruct p as [w|].
+    + destruct (Hp w eq_refl) as (-> & -> & Hpos). cbn [wake]. rewrite unpark_self.
+      simfin Hp.
+    + cbn [unpark]. simfin Hp.
+  - destruct (hget hs h); cbn [is_live negb fst snd skip o_ret o_woke];
+      try (eexists; split; [reflexivity|]; cbn; auto; fail).
+    destruct (cnt + 1 <=? u64_max) eqn:E; [|apply Z.leb_gt in E; lia].
+    cbn [fst snd o_ret o_woke ret_eqb]. rewrite unpark_nil. destruct p as [w|].
+    + destruct (Hp w eq_refl) as (-> & -> & Hpos). rewrite all_dropped_app_live, !andb_false_r.
+      simfin Hp; rewrite live_count_app; lia.
+    + simfin Hp; rewrite live_count_app; lia.
+  - destruct (undropped (hget hs h)) eqn:Hu; cbn [is_live negb fst snd skip o_ret o_woke];
+      try (eexists; split; [reflexivity|]; cbn; auto; fail).
+    pose proof (live_count_drop hs h Hu) as Hd. pose proof (live_count_nonneg (hset hs h HDead)) as Hnn.
+    destruct (0 <=? cnt - 1) eqn:E; [|apply Z.leb_gt in E; lia].
+    destruct (cnt - 1 =? 0) eqn:E0; cbn [fst snd o_ret o_woke ret_eqb].
+    + apply Z.eqb_eq in E0. destruct p as [w|].
+      * destruct (Hp w eq_refl) as (-> & -> & Hpos). cbn [wake]. rewrite unpark_self. simfin Hp.
+      * cbn [unpark]. simfin Hp.
+    + rewrite unpark_nil. destruct p as [w|].
+      * destruct (Hp w eq_refl) as (-> & -> & Hpos).
+        rewrite all_dropped_count, Hd, <- Hc, E0, !andb_false_r.
+        apply Z.eqb_neq in E0. simfin Hp.
+      * simfin Hp.
+  - destruct rc; cbn [negb fst snd skip o_ret o_woke];
+      try (eexists; split; [reflexivity|]; cbn; auto; fail).
+    destruct nf; cbn [fst snd o_ret o_woke ret_eqb].
+    + rewrite Z.eqb_refl. simfin Hp.
+    + rewrite all_dropped_count, <- Hc. destruct (cnt =? 0) eqn:E0; cbn [fst snd o_ret o_woke ret_eqb].
+      * simfin Hp.
+      * apply Z.eqb_neq in E0. pose proof (live_count_nonneg hs). simfin Hp.
+  - destruct rc; cbn [negb fst snd skip o_ret o_woke ret_eqb]; simfin Hp.
+Qed.
+
+Lemma notif_count_grows s o : ni_count (n_in (fst (notif_step s o))) <= ni_count (n_in s) + 1.
+Proof.
+  notif_cases s o.
+  - destruct (hget hs h); cbn; lia.
+  - destruct (hget hs h); cbn; try lia. destruct (cnt + 1 <=? u64_max); cbn; lia.
+  - destruct (undropped (hget hs h)); cbn; try lia.
+    destruct (0 <=? cnt - 1); [destruct (cnt - 1 =? 0)|]; cbn; lia.
+  - destruct rc; [destruct nf; [|destruct (cnt =? 0)]|]; cbn; lia.
+  - destruct rc; cbn; lia.
+Qed.
+
+Lemma notif_sim_run strict : forall ops s sp,
+  nrel s sp -> ni_count (n_in s) + Z.of_nat (length ops) <= u64_max ->
+  exists sp', spec_run KNotif strict sp (trace notif_step s ops) = Some sp'.
+Proof.
+  induction ops as [|o t IH]; intros s sp Hrel Hb; cbn [trace spec_run]; [eauto|].
+  cbn [length] in Hb.
+  destruct (notif_sim_step strict s sp o Hrel) as (sp1 & -> & Hrel1); [lia|].
+  apply IH; [exact Hrel1|]. pose proof (notif_count_grows s o). lia.
+Qed.
+
+Lemma nrel_init : nrel notif_init spec_init.
+Proof. unfold nrel. cbn. repeat split; intros; auto; discriminate. Qed.
+
+Lemma notif_oracle ops :
+  Z.of_nat (length ops) < u64_max -> oracle KNotif true (ntrace ops) = true.
+Proof.
+  intros Hb. unfold oracle, ntrace.
+  destruct (notif_sim_run true ops _ _ nrel_init) as (sp' & ->); [|reflexivity].
+  change (ni_count (n_in notif_init)) with 1. lia.
+Qed.
+
+(* ---------------------------------------------------------------- oneshot *)
+Definition orel (s : oneshot) (sp : spec) : Prop :=
+  sp_queue sp = opt_list (oi_data (o_in s)) /\
+  sp_senders sp = o_senders s /\ sp_recv sp = o_recv s /\
+  (exists x, o_senders s = [x] /\ oi_has_sender (o_in s) = undropped x /\
+             (x = HLive -> oi_data (o_in s) = None)) /\
+  (forall w, sp_parked sp = Some w ->
+     oi_waker (o_in s) = Some w /\ oi_data (o_in s) = None /\ oi_has_sender (o_in s) = true).
+
+Ltac osimfin Hp y :=
+  eexists; split; [reflexivity|]; cbn; repeat split; intros; auto; try congruence;
+  try (exists y; cbn; repeat split; intros; auto; congruence);
+  try (eapply Hp; eauto).
+
+Lemma oneshot_sim_step strict s sp o :
+  orel s sp ->
+  exists sp', spec_step KOneshot strict sp (o, snd (oneshot_step s o)) = Some sp'
+              /\ orel (fst (oneshot_step s o)) sp'.
+Proof.
+  destruct sp as [q ss r p]. unfold orel. cbn [sp_queue sp_senders sp_recv sp_parked].
+  intros (Hq & Hss & Hr & (x & Hx & Hh & Hl) & Hp). revert Hq Hss Hr Hx Hh Hl Hp.
+  oneshot_cases s o; intros -> -> -> -> -> Hl Hp; spec_unfold; rewrite ?hget_single.
+  - destruct h as [|h]; [destruct x|]; cbn [is_live negb fst snd skip o_ret o_woke hset ret_eqb].
+    + rewrite (Hl eq_refl) in *. cbn [opt_list app]. destruct p as [w|].
+      * destruct (Hp w eq_refl) as (-> & _ & _). cbn [wake]. rewrite unpark_self. osimfin Hp HSent.
+      * cbn [unpark]. osimfin Hp HSent.
+    + osimfin Hp HSent.
+    + osimfin Hp HDead.
+    + osimfin Hp x.
+  - cbn [negb fst snd skip o_ret o_woke]. osimfin Hp x.
+  - destruct h as [|h]; [destruct x|]; cbn [undropped negb fst snd skip o_ret o_woke hset ret_eqb].
+    + destruct p as [w|].
+      * destruct (Hp w eq_refl) as (-> & -> & _). cbn [wake]. rewrite unpark_self. osimfin Hp HDead.
+      * cbn [unpark]. osimfin Hp HDead.
+    + destruct p as [w|].
+      * destruct (Hp w eq_refl) as (-> & -> & _). cbn [wake]. rewrite unpark_self. osimfin Hp HDead.
+      * cbn [unpark]. osimfin Hp HDead.
+    + osimfin Hp HDead.
+    + osimfin Hp x.
+  - destruct rc; cbn [negb fst snd skip o_ret o_woke]; [|osimfin Hp x].
+    destruct d as [v|]; cbn [opt_list fst snd o_ret o_woke ret_eqb].
+    + rewrite Z.eqb_refl. osimfin Hp x.
+    + cbn [all_dropped forallb]. rewrite andb_true_r.
+      destruct (undropped x) eqn:Hu; cbn [negb fst snd o_ret o_woke ret_eqb]; osimfin Hp x.
+  - destruct rc; cbn [negb fst snd skip o_ret o_woke ret_eqb]; osimfin Hp x.
+Qed.
+
+Lemma oneshot_sim_run strict : forall ops s sp,
+  orel s sp -> exists sp', spec_run KOneshot strict sp (trace oneshot_step s ops) = Some sp'.
+Proof.
+  induction ops as [|o t IH]; intros s sp Hrel; cbn [trace spec_run]; [eauto|].
+  destruct (oneshot_sim_step strict s sp o Hrel) as (sp1 & -> & Hrel1). apply IH, Hrel1.
+Qed.
+
+Lemma orel_init : orel oneshot_init spec_init.
+Proof.
+  unfold orel. cbn. repeat split; intros; auto; try discriminate.
+  exists HLive. repeat split; auto.
+Qed.
+
+Lemma oneshot_oracle ops : oracle KOneshot true (otrace ops) = true.
+Proof.
+  unfold oracle, otrace. destruct (oneshot_sim_run true ops _ _ orel_init) as (sp' & ->). reflexivity.
+Qed.
+
+(* the known class is EXACTLY the family rejected by the strict monitor *)
+Definition mrel2 (s : mpsc) (sp : spec) : Prop :=
+  mrel s sp /\
+  (mi_data (m_in s) <> [] -> mi_waker (m_in s) = None) /\
+  (m_recv s = true -> forall w, mi_waker (m_in s) = Some w -> sp_parked sp = Some w).
+
+Lemma mpsc_defect_rejected s sp o :
+  mrel2 s sp -> mpsc_defect_event s o = true ->
+  spec_step KMpsc true sp (o, snd (mpsc_step s o)) = None.
+Proof.
+  destruct sp as [q ss r p]. unfold mrel2, mrel. cbn [sp_queue sp_senders sp_recv sp_parked].
+  intros ((Hq & Hss & Hr & Hc & Hp) & He1 & He2). revert Hq Hss Hr Hc Hp He1 He2.
+  unfold mpsc_defect_event.
+  mpsc_cases s o; intros -> -> -> -> Hp He1 He2 Hd; try discriminate; spec_unfold.
+  - apply andb_prop in Hd as [Hd Hw]. apply andb_prop in Hd as [Hd Hn].
+    apply andb_prop in Hd as [Hd Ha]. apply andb_prop in Hd as [Hrc Hu].
+    subst rc. rewrite Hu. cbn [negb fst snd o_ret o_woke ret_eqb]. rewrite unpark_nil.
+    destruct d; [|discriminate]. destruct wk as [w|]; [|discriminate].
+    rewrite (He2 eq_refl w eq_refl). rewrite Ha. reflexivity.
+  - apply andb_prop in Hd as [Hd Hn]. apply andb_prop in Hd as [Hrc Ha]. subst rc.
+    destruct d; [|discriminate]. cbn [negb fst snd o_ret o_woke]. rewrite Ha. reflexivity.
+Qed.
+
+Lemma mpsc_sim_step2 s sp o :
+  mrel2 s sp -> mpsc_defect_event s o = false ->
+  exists sp', spec_step KMpsc true sp (o, snd (mpsc_step s o)) = Some sp'
+              /\ mrel2 (fst (mpsc_step s o)) sp'.
+Proof.
+  intros (Hrel & He1 & He2) Hd.
+  destruct (mpsc_sim_step true s sp o Hrel (fun _ => Hd)) as (sp' & Hs & Hrel').
+  exists sp'. split; [exact Hs|]. split; [exact Hrel'|].
+  revert Hs Hrel' He1 He2. clear Hd.
+  destruct sp as [q ss r p]. destruct Hrel as (Hq & Hss & Hr & Hc & Hp). revert Hq Hss Hr Hc Hp.
+  cbn [sp_queue sp_senders sp_recv sp_parked].
+  mpsc_cases s o; intros -> -> -> -> Hp; spec_unfold.
+  - destruct (hget hs h); cbn [is_live negb fst snd skip o_ret o_woke ret_eqb];
+      intros Hs _ He1 He2; cbn in *; try (inversion Hs; subst; cbn; split; auto; fail).
+    split; [reflexivity|]. intros _ w Hw. discriminate.
+  - destruct (hget hs h); cbn [is_live negb fst snd skip o_ret o_woke ret_eqb];
+      intros Hs _ He1 He2; cbn in *; try (inversion Hs; subst; cbn; split; auto; fail).
+    rewrite unpark_nil in Hs. split; [exact He1|]. intros Hrc w Hw. specialize (He2 Hrc w Hw). subst p.
+    destruct (rc && _) in Hs; inversion Hs; reflexivity.
+  - destruct (undropped (hget hs h)); cbn [is_live negb fst snd skip o_ret o_woke ret_eqb];
+      intros Hs _ He1 He2; cbn in *; try (inversion Hs; subst; cbn; split; auto; fail).
+    rewrite unpark_nil in Hs. split; [exact He1|]. intros Hrc w Hw. specialize (He2 Hrc w Hw). subst p.
+    destruct (rc && _) in Hs; inversion Hs; reflexivity.
+  - destruct rc; cbn [negb fst snd skip o_ret o_woke];
+      intros Hs _ He1 He2; try (inversion Hs; subst; cbn in *; split; auto; fail).
+    destruct d as [|x t]; cbn [fst snd o_ret o_woke m_in mi_data mi_waker m_recv] in *.
+    + split; [intros H; congruence|]. intros _ w Hw. inversion Hw; subst.
+      destruct (all_dropped hs); cbn in Hs; inversion Hs; reflexivity.
+    + assert (wk = None) as -> by (apply He1; discriminate).
+      split; [reflexivity|]. intros _ w Hw. discriminate.
+  - destruct rc; cbn [negb fst snd skip o_ret o_woke ret_eqb];
+      intros Hs _ He1 He2; inversion Hs; subst; cbn in *; split; auto. intros; discriminate.
+Qed.
+
+Lemma mpsc_known_rejected : forall ops s sp,
+  mrel2 s sp -> mpsc_known_from s ops = true ->
+  spec_run KMpsc true sp (trace mpsc_step s ops) = None.
+Proof.
+  induction ops as [|o t IH]; intros s sp Hrel Hk; [discriminate|].
+  cbn [mpsc_known_from] in Hk. cbn [trace spec_run].
+  destruct (mpsc_defect_event s o) eqn:Hd.
+  - rewrite (mpsc_defect_rejected s sp o Hrel Hd). reflexivity.
+  - cbn [orb] in Hk. destruct (mpsc_sim_step2 s sp o Hrel Hd) as (sp' & -> & Hrel').
+    apply IH; assumption.
+Qed.
+
+Lemma mpsc_known_class_exact ops :
+  oracle KMpsc true (mtrace ops) = negb (mpsc_known_class ops).
+Proof.
+  destruct (mpsc_known_class ops) eqn:Hk; cbn [negb].
+  - unfold oracle, mtrace. rewrite (mpsc_known_rejected ops mpsc_init spec_init); [reflexivity| |exact Hk].
+    split; [exact mrel_init|]. cbn. split; intros; congruence.
+  - apply mpsc_oracle_strict_unless_known, Hk.
+Qed.
